@@ -148,6 +148,14 @@ class TableNames:
     def __init__(self, app_id: str, component: str) -> None:
         self.table_prefix: str = f"{sanitize_table_prefix(app_id)}__{component}"
 
+    def all_tables(self) -> list[str]:
+        """The exact names of the tables of this component (every name attribute set by the subclass)."""
+        return [
+            value
+            for name, value in vars(self).items()
+            if name != "table_prefix" and isinstance(value, str)
+        ]
+
 
 def delete_tables_with_prefix(sqlite_db_path: str | Path, prefix: str) -> None:
     """
@@ -160,12 +168,37 @@ def delete_tables_with_prefix(sqlite_db_path: str | Path, prefix: str) -> None:
     :param prefix: Table name prefix to match
     """
     with create_sqlite_connection(sqlite_db_path) as conn:
-        cursor = conn.execute(
-            "SELECT name FROM sqlite_master WHERE type='table' AND name LIKE ?",
-            (f"{prefix}%",),
-        )
+        cursor = conn.execute("SELECT name FROM sqlite_master WHERE type='table'")
         try:
-            tables = [row[0] for row in cursor.fetchall()]
+            # Compare in Python: SQL LIKE is case-insensitive and treats '_' as a wildcard,
+            # which made one app's prefix match another app's tables.
+            tables = [row[0] for row in cursor.fetchall() if row[0].startswith(prefix)]
+        finally:
+            try:
+                cursor.close()
+            except Exception:
+                pass
+
+        for table in tables:
+            conn.execute(f"DELETE FROM {table}")
+        conn.commit()
+
+
+def delete_tables(sqlite_db_path: str | Path, table_names: list[str]) -> None:
+    """
+    Delete all data from exactly the given tables (those that exist).
+
+    Components purge with this and the names held by their ``Tables`` object, so that an
+    application whose id merely looks like another application's table prefix is never touched.
+
+    :param sqlite_db_path: Path to the SQLite database file
+    :param table_names: Exact table names to empty
+    """
+    wanted = set(table_names)
+    with create_sqlite_connection(sqlite_db_path) as conn:
+        cursor = conn.execute("SELECT name FROM sqlite_master WHERE type='table'")
+        try:
+            tables = [row[0] for row in cursor.fetchall() if row[0] in wanted]
         finally:
             try:
                 cursor.close()
